@@ -315,10 +315,18 @@ Definition cleanup (c : cfg) (pol : bool) (u : option usage) (scan order : list 
   else (ttl_pass (c_tti c) (if ag then c_attl c else c_ttl c) (if ag then c_alow c else 0) u scan s,
         OPass true false).                 (* order is not used: the walk is the scan order *)
 
-(* origin/blobserver/server.go:1015-1058 maybeDelete, the store calls only. owns = this origin is
-   in the blob's hash-ring locations; wb = every pending write-back task of the blob executed
-   successfully (SyncExec, :1042) *)
-Definition force_delete (n : N) (ttl : Z) (owns wb : bool) (s : st) : st * out :=
+(* origin/blobserver/server.go:1015-1058 maybeDelete. owns = this origin is in the blob's hash-ring
+   locations; wb = the outcomes of the blob's pending write-back tasks in the order SyncExec runs
+   them (:1041): a task that succeeds removes the persist sidecar (writeback/executor.go:93), the
+   first failure aborts the forced delete *)
+Fixpoint run_writebacks (n : N) (wb : list bool) (s : st) : st * bool :=
+  match wb with
+  | [] => (s, true)
+  | true :: t => run_writebacks n t (fst (with_file n (fun f => set_persist f None) s))
+  | false :: _ => (s, false)
+  end.
+
+Definition force_delete (n : N) (ttl : Z) (owns : bool) (wb : list bool) (s : st) : st * out :=
   let del := fun s0 : st =>
     let '(s4, r) := delete_file n s0 in                                      (* :1052 *)
     (s4, match r with ROk => ODel true false | _ => ODel false true end) in
@@ -329,9 +337,10 @@ Definition force_delete (n : N) (ttl : Z) (owns wb : bool) (s : st) : st * out :
       if (ttl <? now s1 - f_mtime f) || negb owns then                       (* :1024-1026 *)
         let '(s2, _) := peek n s1 in                                         (* :1030 GetCacheFileMetadata *)
         if is_persisted f then
-          if wb then
-            del (fst (with_file n (fun f => set_persist f None) s2))         (* :1048 *)
-          else (s2, ODel false true)                                         (* :1043-1045 *)
+          let '(s3, allok) := run_writebacks n wb s2 in                      (* :1041-1046 *)
+          if allok then
+            del (fst (with_file n (fun f => set_persist f None) s3))         (* :1048 *)
+          else (s3, ODel false true)
         else del s2
       else (s1, ODel false false)
   end.
@@ -351,7 +360,7 @@ Inductive op :=
 | TtlPass (tti ttl thr : Z) (u : option usage) (scan : list N)
 | PolicyPass (thr : Z) (total : option Z) (scan order : list N)
 | Cleanup (c : cfg) (pol : bool) (u : option usage) (scan order : list N)
-| ForceDelete (n : N) (ttl : Z) (owns wb : bool).
+| ForceDelete (n : N) (ttl : Z) (owns : bool) (wb : list bool).
 
 Definition of_found (p : st * bool) : st * out :=
   (fst p, ORes (if snd p then ROk else RNotExist)).
@@ -394,7 +403,8 @@ Definition unprotects (o : op) (n : N) : bool :=
   match o with
   | SetPersist m false => N.eqb n m
   | ClearPersist m => N.eqb n m
-  | ForceDelete m _ _ true => N.eqb n m      (* write-back ran to completion first *)
+  | ForceDelete m _ _ wb =>                  (* a write-back task ran (or none was pending) first *)
+      N.eqb n m && match wb with false :: _ => false | _ => true end
   | _ => false
   end.
 
